@@ -236,7 +236,17 @@ extern "C" fn file_cb(ctx: *mut c_void, name: *const u8, name_len: usize, fw: *m
     let k = x.files.len() as u64 + 1;
     if x.refuse_every != 0 && k % x.refuse_every == 0 {
         // refused files still count (an empty, never-written sink)
-        x.files.push((nm, Box::new(Sink::new(Policy::new(0, 0, 1, true, 5), 0))));
+        let mut sink = Box::new(Sink::new(Policy::new(0, 0, 1, true, 5), 0));
+        let p: *mut Sink = &mut *sink;
+        x.files.push((nm, sink));
+        if (k / x.refuse_every) % 2 == 0 {
+            // every other refusal comes AFTER the structure was filled: the return code decides, the writer stays unused
+            unsafe {
+                (*fw).write_callback = Some(sink_write);
+                (*fw).flush_callback = Some(sink_flush);
+                (*fw).context = p as *mut c_void;
+            }
+        }
         flag(16);
         return 1;
     }
@@ -1016,6 +1026,37 @@ fn failure_cases(rng: &mut Rng, tier: &str, out: &mut Out) {
 /// The round trips through write callbacks that accept part of each buffer, alone (shared with C13).
 pub fn c20_rt_cases(rng: &mut Rng, tier: &str, out: &mut Out) {
     roundtrip_cases(rng, tier, out);
+    interrupted_roundtrip_cases(rng, tier, out);
+}
+
+/// C13 through the C interface, "a destination that reports interruptions": the write callback returns EINTR (4)
+/// once, at its k-th invocation, having taken nothing, and behaves normally when called again (the `return errno;`
+/// of the README's callbacks when fwrite is interrupted by a signal). The archive must be completed and hold the
+/// same files. (C20 reads the same behaviour as a failure report that is not passed on: K20-EINTR; these cases are
+/// part of the C13 job only.)
+fn interrupted_roundtrip_cases(rng: &mut Rng, tier: &str, out: &mut Out) {
+    let n = if tier == "thorough" { 24 } else { 6 };
+    for j in 0..n {
+        let plan = gen_c_plan(rng, 3_000);
+        let mode = (j % 3) as u64;
+        let seed = rng.next();
+        let mut free = plan_prog(&plan, mode, seed, 0);
+        free.sink = default_sink(mode, 11);
+        let ncalls = run_child(&free).sink_calls.first().copied().unwrap_or(1).max(1);
+        for k in [1u64, 2, 1 + rng.below(ncalls), ncalls] {
+            let mut prog = plan_prog(&plan, mode, seed, 0);
+            prog.sink = vec![mode, 11, k, 0, 4, 0];
+            let res = run_child(&prog);
+            let oracle = (|| {
+                if let Some(bad) = res.rows.iter().position(|r| r[0] != ST_OK) {
+                    return Err(format!("write callback interrupted (EINTR) once at its invocation {k} of {ncalls}: call {bad} ({:?}) returned status {:#x} instead of reissuing the write", prog.ops[bad], res.rows[bad][0]));
+                }
+                oracle_roundtrip(&res.sinks[0], &plan, 1)
+            })();
+            emit(out, format!("c20-rt-eintr-{j}-k{k}"), &format!("roundtrip interrupted-once accept={}", ["all", "one", "random"][mode as usize]), &prog, &res, oracle, false,
+                 json!({"k": k, "ncalls": ncalls, "mode": mode, "files": plan.names.len()}), None);
+        }
+    }
 }
 
 pub fn c20_cases(rng: &mut Rng, tier: &str, out: &mut Out) {
